@@ -22,4 +22,44 @@ func TestClientWalk(t *testing.T) {
 		}
 		runClientScenario(t, idx, "walk", sc, em)
 	}
+	// the stream's context ends while its loop holds a message the caller has not consumed, then RecvMsg / SendMsg
+	idx := n
+	for _, end := range []string{"cancel", "expire"} {
+		for q := 0; q < 3; q++ {
+			for tail := 0; tail < 2; tail++ {
+				acts := []CAct{{Op: "stream"}, {Op: "deliver", Env: &EnvSpec{Call: 0, Hdr: "ok:0", Body: i64(351), Trl: "none"}}}
+				switch q {
+				case 1:
+					acts = append(acts, CAct{Op: "deliver", Env: &EnvSpec{Call: 0, Hdr: "ok:0", Body: i64(352), Trl: "none"}})
+				case 2:
+					acts = append(acts, CAct{Op: "deliver", Env: &EnvSpec{Call: 0, Hdr: "ok:0", Status: &[2]int64{9, 7}, Trl: "ok:0"}})
+				}
+				acts = append(acts, CAct{Op: end, C: 0})
+				if tail == 1 {
+					acts = append(acts, CAct{Op: "send", C: 0, B: 660})
+				}
+				acts = append(acts, CAct{Op: "recv", C: 0}, CAct{Op: "recv", C: 0}, CAct{Op: "recv", C: 0}, CAct{Op: "tick", B: 60}, CAct{Op: "failread"}, CAct{Op: "recv", C: 0})
+				if want(idx) {
+					runClientScenario(t, idx, "walk", clientScenario{Acts: acts, Tags: []string{"context-ends-while-message-held"}}, em)
+				}
+				idx++
+			}
+		}
+	}
+	// the stream is one envelope behind, the next envelope is queued, then the read fails, then the stream drains:
+	// it still gets the queued envelope (repeated: the select between queue and closed signal is a coin flip)
+	for rep := 0; rep < 6; rep++ {
+		for _, fin := range []*EnvSpec{
+			{Call: 0, Hdr: "ok:0", Body: i64(402), Trl: "none"},
+			{Call: 0, Hdr: "ok:0", Status: &[2]int64{0, 0}, Trl: "ok:5"},
+			{Call: 0, Hdr: "ok:0", Status: &[2]int64{9, 7}, Trl: "ok:0"},
+		} {
+			acts := []CAct{{Op: "stream"}, {Op: "deliver", Env: &EnvSpec{Call: 0, Hdr: "ok:0", Body: i64(401), Trl: "none"}},
+				{Op: "deliver", Env: fin}, {Op: "failread"}, {Op: "recv", C: 0}, {Op: "recv", C: 0}, {Op: "recv", C: 0}, {Op: "trailer", C: 0}}
+			if want(idx) {
+				runClientScenario(t, idx, "walk", clientScenario{Acts: acts, Tags: []string{"queued-then-fail"}}, em)
+			}
+			idx++
+		}
+	}
 }
